@@ -9,4 +9,6 @@ p = os.path.join(ROOT, 'DESIGN.md')
 s = open(p).read()
 s = re.sub(r'(<!-- AUTOGEN:theorems BEGIN -->).*?(<!-- AUTOGEN:theorems END -->)', lambda m: m.group(1) + '\n' + thm + '\n' + m.group(2), s, flags=re.S)
 s = re.sub(r'(<!-- AUTOGEN:findings BEGIN -->).*?(<!-- AUTOGEN:findings END -->)', lambda m: m.group(1) + '\n' + fnd + '\n' + m.group(2), s, flags=re.S)
+tab = subprocess.run([sys.executable, os.path.join(ROOT, 'lib', 'seedtable.py')], capture_output=True, text=True).stdout.strip()
+s = re.sub(r'(<!-- AUTOGEN:seeds BEGIN -->).*?(<!-- AUTOGEN:seeds END -->)', lambda m: m.group(1) + '\n' + tab + '\n' + m.group(2), s, flags=re.S)
 open(p, 'w').write(s)
